@@ -27,6 +27,7 @@ type miniEval struct {
 	ctx     *core.Ctx                                // when set, calls of small pure module functions of integers are evaluated in place
 	tables  map[string][]ast.Expr                    // locals that name a row of a constant table
 	methods bool                                     // evaluate parameterless methods of the same package in place, with the same hooks
+	onStore func(lhs, rhs ast.Expr)                  // told about every assignment to something that is not a plain variable
 	helpers bool                                     // evaluate any function of the same package in place (integer arguments bound, the others opaque), with the same hooks
 	depth   int
 	lens    map[string]bool // variables that stand for a slice, valued by its LENGTH
@@ -94,6 +95,32 @@ func (e *miniEval) expr(x ast.Expr) int64 {
 				return e.expr(row[i])
 			}
 			return e.fail("index out of the table row " + core.ExprStr(y))
+		}
+		// an element of a constant array / slice held in a package-level variable
+		if id, isID := ast.Unparen(y.X).(*ast.Ident); isID {
+			if init := core.PkgVarInit(e.pk, id.Name); init != nil {
+				if cl, isCL := ast.Unparen(init).(*ast.CompositeLit); isCL {
+					if t := core.TypeOf(e.pk, cl); t != nil {
+						switch t.Underlying().(type) {
+						case *types.Array, *types.Slice:
+							want := e.expr(y.Index)
+							next := int64(0)
+							for _, el := range cl.Elts {
+								val := el
+								if kv, isKV := el.(*ast.KeyValueExpr); isKV {
+									next = e.expr(kv.Key)
+									val = kv.Value
+								}
+								if next == want {
+									return e.expr(val)
+								}
+								next++
+							}
+							return 0 // an element that is not listed has the zero value
+						}
+					}
+				}
+			}
 		}
 		return e.fail("index " + core.ExprStr(y))
 	case *ast.SelectorExpr:
@@ -211,6 +238,9 @@ func (e *miniEval) assign(lhs ast.Expr, tok token.Token, rhs ast.Expr) {
 	id, isID := ast.Unparen(lhs).(*ast.Ident)
 	if !isID {
 		e.effects = append(e.effects, core.ExprStr(lhs)+" "+tok.String()+" "+core.ExprStr(rhs))
+		if e.onStore != nil {
+			e.onStore(lhs, rhs)
+		}
 		return
 	}
 	if id.Name == "_" {
